@@ -1211,7 +1211,7 @@ def _run(chk, rng, proof, work):
     if not chk.violations and (bad_corr is not None or not proof["ok"]):
         # a proof obligation or the correspondence broke but no sampled schedule failed the property: search harder
         # (every schedule within two preemptions of the small configurations, no sampling limit, own time budget)
-        sweep_deadline = time.time() + (150 if tier == "quick" else 600)
+        sweep_deadline = time.time() + (100 if tier == "quick" else 600)
         before = len(prop_fail_new)
         for name, cfg, bound, limit in plan(chk, rng):
             if time.time() > sweep_deadline or len(prop_fail_new) > before:
